@@ -9,6 +9,7 @@ package main
 
 import (
 	"bytes"
+	"encoding/json"
 	"fmt"
 
 	"google.golang.org/protobuf/proto"
@@ -43,6 +44,21 @@ func noSecretsAPIs(x *h.X, cfg string, ks *tinkpb.Keyset, secret bool, wantKeys 
 		judge("ReadWithNoSecrets/"+f, err)
 		if err == nil && !secret && hd.Len() != wantKeys {
 			failf(x, "nosecrets-read-differs", "%s: ReadWithNoSecrets/%s returns a handle of %d keys, the keyset has %d", cfg, f, hd.Len(), wantKeys)
+		}
+	}
+	// the same JSON document in other LAYOUTS (leading / trailing whitespace, CRLF, indented as other writers and
+	// hand-edited files have it): still the same keyset
+	js := serialise("json", ks)
+	var ind bytes.Buffer
+	layouts := [][]byte{append([]byte("\n  "), append(bytes.Clone(js), '\n')...), append([]byte("\r\n\t"), js...)}
+	if json.Indent(&ind, js, "", "\t") == nil {
+		layouts = append(layouts, ind.Bytes())
+	}
+	for i, l := range layouts {
+		hd, err := keyset.ReadWithNoSecrets(keyset.NewJSONReader(bytes.NewReader(l)))
+		judge(fmt.Sprintf("ReadWithNoSecrets/json-layout-%d", i), err)
+		if err == nil && !secret && hd.Len() != wantKeys {
+			failf(x, "nosecrets-read-differs", "%s: ReadWithNoSecrets/json-layout-%d returns a handle of %d keys, the keyset has %d", cfg, i, hd.Len(), wantKeys)
 		}
 	}
 	if hd0 == nil || secret {
